@@ -179,6 +179,20 @@ func (e c03Expect) matches(got any) bool {
 	return false
 }
 
+// c03VarScale gives the tolerance scales (c03Close allows 1e-9·scale) for a variance and a standard
+// deviation of n inputs of magnitude ma and spread sd.  The guide documents Welford's algorithm, whose
+// error is about n·eps·ma·sd: far below the spread even when the inputs share a large offset (epoch-like
+// readings 1.7e9+k·0.5).  A tolerance proportional to ma² would hide the catastrophic cancellation of a
+// one-pass sum-of-squares formula, which returns 0 or garbage for such inputs.
+func c03VarScale(n int, ma, sd float64) (varScale, sdScale float64) {
+	varScale = 1.5e-5*float64(n)*ma*sd + 1e-3*ma
+	sdScale = varScale
+	if sd > 0 {
+		sdScale = varScale / (2 * sd)
+	}
+	return
+}
+
 func c03Sum(xs []float64) float64 {
 	s := 0.0
 	for _, x := range xs {
@@ -271,19 +285,30 @@ func c03ScalarCells(it *c03Item, cells []c03Cell) c03Expect {
 			return c03Expect{accept: nullOrZero, desc: "no usable input"}
 		}
 		v := c03SqDev(xs) / float64(n)
+		vs, ss := c03VarScale(n, ma, math.Sqrt(v))
 		if it.Fn == "stddev" {
-			return c03Expect{accept: []any{math.Sqrt(v)}, scale: ma, desc: "population, n"}
+			return c03Expect{accept: []any{math.Sqrt(v)}, scale: ss, desc: "population, n"}
 		}
-		return c03Expect{accept: []any{v}, scale: ma * ma, desc: "population, n"}
+		return c03Expect{accept: []any{v}, scale: vs, desc: "population, n"}
 	case "vars", "stddevs":
 		if n < 2 {
 			return c03Expect{accept: nullOrZero, desc: "fewer than two usable inputs"}
 		}
 		v := c03SqDev(xs) / float64(n-1)
+		vs, ss := c03VarScale(n, ma, math.Sqrt(v))
 		if it.Fn == "stddevs" {
-			return c03Expect{accept: []any{math.Sqrt(v)}, scale: ma, desc: "sample, n-1"}
+			return c03Expect{accept: []any{math.Sqrt(v)}, scale: ss, desc: "sample, n-1"}
 		}
-		return c03Expect{accept: []any{v}, scale: ma * ma, desc: "sample, n-1"}
+		return c03Expect{accept: []any{v}, scale: vs, desc: "sample, n-1"}
+	case "pspread":
+		if n == 0 {
+			return c03Expect{accept: nullOrZero, desc: "no usable input"}
+		}
+		lo, hi := xs[0], xs[0]
+		for _, x := range xs {
+			lo, hi = math.Min(lo, x), math.Max(hi, x)
+		}
+		return c03Expect{accept: []any{hi - lo}, scale: ma, desc: "percentile(x,1) - percentile(x,0) = max - min"}
 	case "median":
 		if n == 0 {
 			return c03Expect{accept: nullOrZero, desc: "no usable input"}
